@@ -187,3 +187,31 @@ def run(R):
                         and ev.args[2].path == ()
                 R.ob("C18-write_raw-passthrough", "%s|write_raw" % cfg, ok,
                      "write_raw must forward exactly (instruction, param_bytes) to Interface::send_command; got %s" % [repr(x) for x in syms])
+        # the forwarding impl `Interface for &mut T` must hand every argument on unchanged
+        fw = [b for b in F.trait_impl_method(C.IFACE, "send_command") + F.trait_impl_method(C.IFACE, "send_pixels")
+              + F.trait_impl_method(C.IFACE, "send_repeated_pixel") if b["container"]["self_ty"].get("k") == "ref"]
+        R.floor("%s|forwarding impl methods" % cfg, len(fw), 3)
+        for rec in fw:
+            e5 = R.executor(F)
+            res = R.run_entry(e5, rec)
+            for o in res.outcomes:
+                syms = [s_ for c_, ss in C.lin_paths(o) for s_ in ss]
+                ok = o.kind == "return" and len(syms) == 1 and syms[0].ev.trait == C.IFACE and syms[0].ev.method == rec["name"] \
+                    and isinstance(o.value, SymV) and o.value.name == syms[0].ev.ret.name
+                if ok:
+                    ev = syms[0].ev
+                    nparams = int(rec["body"]["arg_count"])
+                    names = {}
+                    for d in rec["body"]["debug"]:
+                        if d.get("arg") is not None and not d["place"]["proj"]:
+                            names[d["place"]["local"]] = d["name"]
+                    ok = len(ev.args) == nparams and (ev.names[0] or "").startswith("**self")
+                    for i in range(1, nparams):
+                        a = ev.args[i]
+                        want = names.get(i + 1)
+                        got = a.name if isinstance(a, SymV) else (repr(a.poly()) if isinstance(a, IntV) else (a.root[1].lstrip("*") if isinstance(a, Ptr) and not a.path else None))
+                        ok = ok and got == want
+                R.ob("C18-forwarding-impl", "%s|&mut T|%s" % (cfg, rec["name"]), ok,
+                     "`impl Interface for &mut T`::%s must forward its arguments unchanged to T::%s and return its result; got %s"
+                     % (rec["name"], rec["name"], [repr(x) for x in syms]))
+
